@@ -99,7 +99,7 @@ func genProgram(r *rng, p genParams) *Prog {
 	}
 	nf := 1 + r.intn(3)
 	for i := 0; i < nf; i++ {
-		add(Step{Op: "func", K: r.intn(5), A: r.intn(4), B: sel(), C: sel(), Name: name()})
+		add(Step{Op: "func", K: r.intn(5), A: r.intn(4), B: sel(), C: sel(), D: sel(), Name: name()})
 		add(Step{Op: "block", A: i, Name: name()})
 	}
 	for len(pr.Steps) < p.Steps {
@@ -115,7 +115,7 @@ func genProgram(r *rng, p genParams) *Prog {
 		case x < 6:
 			add(Step{Op: "global", K: []int{0, 1, 2, 3, 4, 6}[r.intn(6)], A: sel(), Name: name()})
 		case x < 10:
-			add(Step{Op: "func", K: r.intn(5), A: r.intn(4), B: sel(), C: sel(), Name: name()})
+			add(Step{Op: "func", K: r.intn(5), A: r.intn(4), B: sel(), C: sel(), D: sel(), Name: name()})
 		case x < 20:
 			add(Step{Op: "block", A: sel(), Name: name()})
 		case x < 58:
@@ -568,6 +568,56 @@ func isStructGEP(user interface{}) bool {
 }
 
 // resultTypeOfKind is the result type of an instruction of generator kind k.
+// isCallee reports whether v is the called function of the call or invoke user.
+func isCallee(user interface{}, v value.Value) bool {
+	fn, ok := v.(*ir.Func)
+	if !ok {
+		return false
+	}
+	switch u := user.(type) {
+	case *ir.InstCall:
+		return u.Callee == value.Value(fn)
+	case *ir.TermInvoke:
+		return u.Invokee == value.Value(fn)
+	}
+	return false
+}
+
+// compatibleCallee returns a function other than old that can be called with the
+// arguments of user and has the same return type (nil if there is none).
+func (mc *machine) compatibleCallee(user interface{}, old *ir.Func, pick int) value.Value {
+	var args []value.Value
+	switch u := user.(type) {
+	case *ir.InstCall:
+		args = u.Args
+	case *ir.TermInvoke:
+		args = u.Args
+	}
+	var cands []*ir.Func
+	for _, mf := range mc.funcs {
+		g := mf.f
+		if g == old || !g.Sig.RetType.Equal(old.Sig.RetType) {
+			continue
+		}
+		if len(g.Params) > len(args) || (len(g.Params) < len(args) && !g.Sig.Variadic) {
+			continue
+		}
+		ok := true
+		for i, p := range g.Params {
+			if !p.Typ.Equal(mc.typeOf(args[i])) {
+				ok = false
+			}
+		}
+		if ok {
+			cands = append(cands, g)
+		}
+	}
+	if len(cands) == 0 {
+		return nil
+	}
+	return cands[pick%len(cands)]
+}
+
 func resultTypeOfKind(in ir.Instruction, k, d int, calleeRet types.Type) types.Type {
 	if a, ok := in.(*ir.InstAlloca); ok {
 		return types.NewPointer(a.ElemType)
@@ -790,7 +840,16 @@ func (mc *machine) exec1(s Step) bool {
 			}
 			params = append(params, ir.NewParam(pn, paramType(s.B/(i+1))))
 		}
+		if s.D%5 == 1 && s.D%2 == 1 {
+			// (a variadic function without fixed parameters can stand in for any
+			// callee of the same return type)
+			params = nil
+		}
 		f := mc.m.NewFunc(name, retType(s.K), params...)
+		if s.D%5 == 1 {
+			f.Sig.Variadic = true
+			mc.probes["variadic function created"]++
+		}
 		if mc.printedOnce && name == "" {
 			mc.probes["unnamed function appended after a print"]++
 		}
@@ -1066,9 +1125,22 @@ func (mc *machine) exec1(s Step) bool {
 			return false
 		}
 		old := *op
-		t := mc.typeOf(old)
+		var t types.Type = types.Void
+		if !isCallee(user, old) {
+			// (the builder itself must not ask a callee for its type: that would be
+			// an observation)
+			t = mc.typeOf(old)
+		}
 		var repl value.Value
 		switch {
+		case isCallee(user, old):
+			// The callee of a call or invoke is replaced by another function that
+			// accepts the same arguments and returns the same type (its signature may
+			// differ in the number of fixed parameters and in being variadic).
+			repl = mc.compatibleCallee(user, old.(*ir.Func), s.P)
+			if repl != nil {
+				mc.probes["callee replaced by a function of another signature"]++
+			}
 		case isStructGEP(user) && s.D%len(ops) == 2:
 			// The field index of a struct getelementptr stays a valid constant (the
 			// result type depends on its value).
